@@ -108,7 +108,7 @@ func (w *World) MineT(p int, evs []string, exp int) int {
 	id := len(w.Blk) + 1
 	sorted := append([]string{}, evs...)
 	sort.Strings(sorted)
-	w.Blk = append(w.Blk, AbsBlk{Num: w.Blk[p-1].Num + 1, Par: p, Evs: sorted, Exp: exp})
+	w.Blk = append(w.Blk, AbsBlk{Num: w.Blk[p-1].Num + 1, Par: p, Evs: sorted, Exp: exp, Len: 1})
 	var logs []fakeeth.LogSpec
 	// the order of the logs inside the block rotates with the seed
 	order := append([]string{}, sorted...)
